@@ -260,7 +260,7 @@ def slope(elevtn, nodata=-9999.0, latlon=False, transform=gis_utils.IDENTITY):
     slope = np.zeros(elevtn.shape, dtype=np.float32)
     nrow, ncol = elevtn.shape
 
-    elev = np.zeros((3, 3), dtype=elevtn.dtype)
+    elev = np.zeros((3, 3), dtype=np.float64)
 
     for r in range(0, nrow):
         for c in range(0, ncol):
